@@ -52,6 +52,9 @@ type writer struct {
 }
 
 func (w *writer) write(s string) {
+	if w.b.Len()+len(s) > 4*MaxStr {
+		leave("string too long")
+	}
 	w.b.WriteString(s)
 	if w.main && w.writes != nil {
 		*w.writes = append(*w.writes, s)
